@@ -199,11 +199,27 @@ def split_members(members, mode):
     return members[:1], [members[1:]]
 
 
-def render(rec, split=None, order="as-is", ext_first=False):
+class _Named(list):
+    """list of definition texts that remembers which record entry produced each of them"""
+    def __init__(self):
+        super().__init__()
+        self.names, self.current = [], None
+
+    def append(self, x):
+        self.names.append(self.current)
+        super().append(x)
+
+    def insert(self, i, x):
+        self.names.insert(i, self.current)
+        super().insert(i, x)
+
+
+def render(rec, split=None, order="as-is", ext_first=False, parts=False):
     """split: dict type name -> mode (0 none, 1 last member in an extension, 2 first member in base, rest in two extensions)"""
     split = split or {}
-    defs, exts = [], []
+    defs, exts = _Named(), []
     for name in rec["order"]:
+        defs.current = name
         if name.startswith("@"):
             d = rec["directives"][name[1:]]
             defs.append("%sdirective @%s%s on %s" % (_desc(d["desc"]), name[1:], _args(d["args"]), " | ".join(d["locations"])))
@@ -235,11 +251,15 @@ def render(rec, split=None, order="as-is", ext_first=False):
                 exts.append("extend input %s {\n%s}" % (name, _input_lines(b)))
         elif k == "scalar":
             defs.append("%sscalar %s" % (_desc(t["desc"]), name))
+    defs.current = None
     if rec["schema_def"]:
         ops = " ".join("%s: %s" % (op, tn) for op, tn in rec["roots"].items() if tn)
         defs.insert(0, "schema { %s }" % ops)
     if rec.get("schema_ext"):
         exts.append("extend schema { %s }" % " ".join("%s: %s" % kv for kv in rec["schema_ext"].items()))
+    if parts:
+        # [(name of the defined element or None, text)], [extension texts] - for callers that distribute the definitions over several documents
+        return list(zip(defs.names, defs)), exts
     if order == "reversed":
         defs = list(reversed(defs))
         exts = list(reversed(exts)) if False else exts          # extension blocks keep their relative (document) order
